@@ -236,7 +236,17 @@ class Index:
 def unparse(node):
     if node is None:
         return "None"
-    return ast.unparse(node)
+    # memoised on the node itself (the trees are never mutated by the analysis)
+    try:
+        return node._verif_unparsed
+    except AttributeError:
+        pass
+    t = ast.unparse(node)
+    try:
+        node._verif_unparsed = t
+    except AttributeError:
+        pass
+    return t
 
 
 def dotted(node):
